@@ -88,7 +88,7 @@ MYST_OVERRIDES = [
     "all_links_external: true", "links_external_new_tab: true", "commonmark_only: true", "gfm_only: 3",
     "disable_syntax: [emphasis]", "disable_syntax: [bogus]", "disable_syntax: emphasis", "disable_syntax: [1]",
     "disable_syntax: [table, link, image, heading, fence, list, blockquote, hr, html_block, reference, code]",
-    "disable_syntax: [inline]", "disable_syntax: [text]", "disable_syntax: [block]",
+    "disable_syntax: [text]", "disable_syntax: [block]",
     "disable_syntax: [normalize]", "disable_syntax: [text_join]", "disable_syntax: [balance_pairs]",
     "disable_syntax: [fragments_join]", "disable_syntax: [front_matter]", "disable_syntax: [footnote_tail]",
     "disable_syntax: [escape, entity, backticks, autolink, html_inline, newline, strikethrough]",
@@ -618,7 +618,7 @@ def gen_settings(rng, have_linkify, sphinx):
         ("myst_disable_syntax", [["emphasis"], ["table"], ["link", "image"], ["heading", "lheading"], ["fence", "code"], ["list"],
                                  ["blockquote"], ["hr"], ["html_block", "html_inline"], ["reference"],
                                  ["front_matter"], ["footnote_def", "footnote_ref"], ["myst_role"], ["myst_block_break", "myst_target", "myst_line_comment"],
-                                 ["text_join"], ["balance_pairs"], ["inline"], ["block"], ["escape", "entity", "backticks", "newline"]]),
+                                 ["text_join"], ["balance_pairs"], ["block"], ["escape", "entity", "backticks", "newline"]]),
         ("myst_fence_as_directive", [["note"], ["mermaid", "python"], ["include"], ["eval-rst"]]),
         ("myst_number_code_blocks", [["python"], ["bogus", ""]]),
         ("myst_substitutions", [{"a": "A", "b": "{{a}}", "c": "{{d}}", "d": "{{c}}"}, {"a": 1, "b": None, "c": [1], "d": "```{note}\nx\n```"},
